@@ -220,7 +220,7 @@ def shard(ctx: Ctx):
         ctx.add(evaluate(case, ctx))
     ctx.exhaustive_arms.append(f'holes: all strings of length <= {maxlen} over {len(ALPHABET)} symbols x {len(HOLES)} holes')
 
-    n = (250 if quick else 6000)
+    n = (250 if quick else 2500)
     both = st.one_of(soup(), spaced_soup())
     hyp_run(ctx, 'soup', both, lambda t: evaluate(dict(text=t, gen='soup'), ctx), n)
     props = st.booleans()
